@@ -345,10 +345,10 @@ def check_crate(fx, rep, crate, cfg):
             if body.is_cleanup(sw) or body.term(sw)['k'] != 'switch':
                 continue
             info = body.switch_info(sw)
-            if info and info.get('kind') == 'cmp' and info['op'] in ('Eq', 'Ne', 'Gt') and \
-                    info['a'].get('kind') == 'place' and any(n == pos_field for _, n in info['a'].get('fields', [])) and \
-                    info['b'].get('kind') == 'const' and info['b'].get('val') == 0 and body.dominates(sw, wb):
-                empty_edge = info['true'] if info['op'] == 'Eq' else info['false']
+            if info and info.get('kind') == 'cmp' and info['a'].get('kind') == 'place' and any(n == pos_field for _, n in info['a'].get('fields', [])) and \
+                    info['b'].get('kind') == 'const' and body.dominates(sw, wb) and \
+                    (info['op'], info['b'].get('val')) in (('Eq', 0), ('Ne', 0), ('Gt', 0), ('Lt', 1), ('Le', 0), ('Ge', 1)):
+                empty_edge = info['true'] if info['op'] in ('Eq', 'Lt', 'Le') else info['false']
                 if wb not in body.reachable(empty_edge):
                     ok_empty = True
         rep.check(ok_empty, 'R02.4', '%s|empty-flush-writes-nothing|%s' % (fk, cfg), C.where(body, wb),
